@@ -193,3 +193,11 @@ def run(ctx):
     from .common import shared
 
     shared(ctx, "C05.b", c06.rule_c, why="the transport cost is the quadrature of |face_to_cell(flux, pt)|")
+    # the reported value is the cost of a mass-conserving flux only if every linear solve uses a factorisation of its own matrix (C04.g)
+    from . import c04, c17
+    from ..effects import Effects
+
+    shared(ctx, "C05.a", c04.rule_g, why="a stale factorisation returns a flux that violates the mass balance the distance is defined with")
+    # the OpenCV back end normalises copies: a distance evaluation that rescales the caller's images changes every later distance (C17.a)
+    shared(ctx, "C05.c", c17.rule_a, Effects(ctx.model), (lambda mod, qn: mod == "darsia.measure.emd"), 1,
+           why="d(a, b) evaluated twice, or d(b, a) after d(a, b), must see the same images")
